@@ -8,6 +8,13 @@ use std::ops::Deref;
 use std::sync::atomic::AtomicBool;
 use std::time::Duration;
 
+/// The token carries the whole 64-bit id wherever `usize` can hold it (the id is
+/// looked up again when the event comes back); it is folded only on narrower targets.
+#[allow(clippy::cast_possible_truncation)]
+fn mio_token(token: u64) -> Token {
+    Token(usize::try_from(token).unwrap_or(((token >> 32) as u32 ^ token as u32) as usize))
+}
+
 impl super::Interest for Interest {
     fn read(_: u64) -> Self {
         Interest::READABLE
@@ -91,11 +98,7 @@ impl super::Selector<Interest, Event, Events> for Poller {
     fn do_register(&self, fd: c_int, token: u64, interests: Interest) -> std::io::Result<()> {
         self.registry().register(
             &mut SourceFd(&fd),
-            Token(
-                ((token >> 32) as u32 ^ token as u32)
-                    .try_into()
-                    .expect("token overflow"),
-            ),
+            mio_token(token),
             interests,
         )
     }
@@ -104,11 +107,7 @@ impl super::Selector<Interest, Event, Events> for Poller {
     fn do_reregister(&self, fd: c_int, token: u64, interests: Interest) -> std::io::Result<()> {
         self.registry().reregister(
             &mut SourceFd(&fd),
-            Token(
-                ((token >> 32) as u32 ^ token as u32)
-                    .try_into()
-                    .expect("token overflow"),
-            ),
+            mio_token(token),
             interests,
         )
     }
